@@ -421,6 +421,14 @@ def heapInsert (x : Nat × Nat × Bytes) : List (Nat × Nat × Bytes) → List (
   | [] => [x]
   | y :: ys => if x.1 < y.1 || (x.1 = y.1 && x.2.1 < y.2.1) then x :: y :: ys else y :: heapInsert x ys
 
+/-- `heappush` then `heappop` when the heap exceeds `k` entries -/
+def boundedPush (k : Nat) (h : List (Nat × Nat × Bytes)) (x : Nat × Nat × Bytes) : List (Nat × Nat × Bytes) :=
+  let h1 := heapInsert x h
+  if h1.length > k then h1.drop 1 else h1
+
+/-- the bounded heap after all pushes, ascending -/
+def topK (k : Nat) (xs : List (Nat × Nat × Bytes)) : List (Nat × Nat × Bytes) := xs.foldl (boundedPush k) []
+
 /-- `get_webentity_most_linked_pages(weid, prefixes, pages_count, max_depth)` : (lru, indegree), best first.
     The bounded `heapq` is modelled by what it computes: the `k` largest keys. -/
 def mostLinked (s : State) (prefixes : List Bytes) (k : Nat) (maxDepth : Option Nat) :
@@ -428,9 +436,7 @@ def mostLinked (s : State) (prefixes : List Bytes) (k : Nat) (maxDepth : Option 
   (s.forPrefixes prefixes (fun n p =>
       ((s.weDfs n p maxDepth).filter (fun bl => (s.cell bl.1).flags.page)).map
         (fun bl => (bl.2, s.indegreeEntries (s.cell bl.1).inn)))).map (fun pages =>
-    let heap := (enumFrom 1 pages).foldl (fun h ip =>
-        let h1 := heapInsert (ip.2.2, ip.1, ip.2.1) h
-        if h1.length > k then h1.drop 1 else h1) []
+    let heap := topK k ((enumFrom 1 pages).map (fun ip => (ip.2.2, ip.1, ip.2.1)))
     heap.reverse.map (fun x => (x.2.2, x.1)))
 
 def insertSorted (x : Nat) : List Nat → List Nat
